@@ -219,3 +219,12 @@ package ckks
 //@ decodes ParametersLiteral.UnmarshalJSON
 //@   property C08
 //
+
+// ---- multiply-then-add with a real scalar: the ACCUMULATOR keeps its degree (finding F44)
+//@ afunc Evaluator.MulThenAdd#scalaracc
+//@   property C06
+//@   dyn op1 float64
+//@   case len(op0.Value) == 2 && len(opOut.Value) == 3
+//@   case len(op0.Value) == 2 && len(opOut.Value) == 2
+//@   ensures implies(isnil(err) && old(len(opOut.Value)) == 3, len(opOut.Value) == 3)
+//@   ensures implies(isnil(err) && old(len(opOut.Value)) == 2, len(opOut.Value) == 2)
